@@ -19,12 +19,31 @@ EXPLANATION = ("coordinate-frame typing (points/vectors/rotations with from->to 
                "field-function contract. Decides the direction and order of the frame change, not index alignment or numerical covariance.")
 
 
+def pose_copy_by_operation(repo, res, rule="F2d"):
+    """F2d a derived object is given another object's pose by *assignment* (`x.position = self.position`), never by `move` / `rotate`
+    with the other object's path as argument: array input to move/rotate is merged into / appended to the path (a path of n steps
+    becomes 2n+1 steps starting at the origin), so the derived object is placed elsewhere and its field is no longer the original's."""
+    import ast
+    from common import Finding, norm
+    n = 0
+    for m, q, fn_, cl in repo.all_functions():
+        for c in ast.walk(fn_):
+            if isinstance(c, ast.Call) and isinstance(c.func, ast.Attribute) and c.func.attr in ("move", "rotate") and c.args:
+                a = c.args[0]
+                if isinstance(a, ast.Attribute) and a.attr in ("position", "_position", "orientation", "_orientation") and isinstance(a.value, ast.Name):
+                    n += 1
+                    res.add(Finding(rule, m.rel, q, c, f"the pose path `{norm(a)}` of another object is handed to .{c.func.attr}(): for a path this appends/merges instead of "
+                                    "placing the receiver like that object (assign position / orientation instead)", c.lineno))
+    res.ob(f"{rule}:no pose copied through move/rotate", n == 0, {"rule": rule, "instances": n}, nontrivial=False)
+
+
 def run(repo, res, tier):
-    res.rules = ["F1 level-1 transform in/out", "F2 level-1 inputs built from the sources' own poses; no literal overwrite of poses", "F2b sibling tiling", "F2c axis-layout typing (row alignment)"]
+    res.rules = ["F1 level-1 transform in/out", "F2 level-1 inputs built from the sources' own poses; no literal overwrite of poses", "F2b sibling tiling", "F2c axis-layout typing (row alignment)", "F2d poses copied by assignment"]
     extra = frame_rules.c03(repo, res)
     from props import c07
     import lay_rules
     lay_rules.run(res, "F2c")
+    pose_copy_by_operation(repo, res)
     c07.w4(repo, res)     # F2b: position and orientation rows are tiled identically (row alignment of the two pose paths)
     res.assumptions += ["declared types: X._position : Pt[G], X._orientation : Rot[X->G]; field function: Vec[S] -> Vec[S]",
                         "SciPy Rotation semantics: apply(v, inverse=True) == inv().apply(v); (p*q).apply(v) == p.apply(q.apply(v))"]
